@@ -242,6 +242,16 @@ def RTy.LayOk (lay : Nat → Layout) : RTy → Prop
   | .option t | .list t => t.LayOk lay
   | .result a b | .verdict a b => a.LayOk lay ∧ b.LayOk lay
 
+/-- the signature type that spells a Rust type with the built-in names (registered types under the
+    name and in the scope `nm` gives their `TypeId`) -/
+def builtinImage (nm : Nat → NScope × TIdent) : RTy → STy
+  | .unit => .unit
+  | .prim p => .name0 .global (.prim p) (.prim p)
+  | .val id _ => .name0 (nm id).1 (nm id).2 (.runtime id)
+  | .option t => .name1 .global (.generic .option) (.builtin .option) (builtinImage nm t)
+  | .list t => .name1 .global (.generic .list) (.builtin .list) (builtinImage nm t)
+  | .result a b => .name2 .global (.generic .result) (.builtin .result) (builtinImage nm a) (builtinImage nm b)
+  | .verdict a b => .name2 .global (.generic .verdict) (.builtin .verdict) (builtinImage nm a) (builtinImage nm b)
 /-- the gate with every name test reduced to the identifier (the shape of seeded C05-9) -/
 def identOnlyArms : List GateArm := gateArms.map fun a => { a with scope := .anyScope }
 
